@@ -312,6 +312,9 @@ func main() {
 		{Name: "E-either-answer", Props: []string{"C12"}, About: "0.0.0.0/0 added then the specific range removed while a lookup is in flight: both answers are allowed by the statement",
 			Quick: P(0, 1, -1), Body: body(sE), MinOutcomes: 2},
 	}
+	// C12 states freedom from data races
+	sdrive.RaceViolates = func(id, msg string) bool { return true }
+	vcommon.RaceViolates = func(id, report string) bool { return strings.Contains(report, "/util/netutil.") }
 	sdrive.Main("model_checking", scens, []string{
 		"netutil is rebuilt with listSize=3 (constant override by the instrumenter) so that the migration is reachable; the real size 256 differs only in that constant",
 		"code between two visible operations (RWMutex, atomic, monitor event) is atomic; justified by the happens-before race check on every IPv4Filter field",
